@@ -212,19 +212,20 @@ type preOp struct {
 }
 
 type scenario struct {
-	ID        string   `json:"id"`
-	Agent     string   `json:"agent"` // cli name
-	Path      string   `json:"path"`  // --path ("" = not given)
-	User      bool     `json:"user"`
-	Cwd       string   `json:"cwd"`
-	Home      string   `json:"home"`
-	Uid       int      `json:"uid"`
-	TempClash bool     `json:"temp_clash"`
-	TempSeed  uint64   `json:"temp_seed"`
-	BaseLink  string   `json:"base_link,omitempty"` // the base directory is a symlink to this directory
-	Umask     uint32   `json:"umask,omitempty"`     // process umask during the installation
-	Pre       []preOp  `json:"pre"`
-	Kinds     []string `json:"kinds"` // which pre-state families were drawn (for evidence)
+	ID        string            `json:"id"`
+	Agent     string            `json:"agent"` // cli name
+	Path      string            `json:"path"`  // --path ("" = not given)
+	User      bool              `json:"user"`
+	Cwd       string            `json:"cwd"`
+	Home      string            `json:"home"`
+	Env       map[string]string `json:"env,omitempty"` // rest of the process environment (XDG_*, TMPDIR); the documented directories do not depend on it
+	Uid       int               `json:"uid"`
+	TempClash bool              `json:"temp_clash"`
+	TempSeed  uint64            `json:"temp_seed"`
+	BaseLink  string            `json:"base_link,omitempty"` // the base directory is a symlink to this directory
+	Umask     uint32            `json:"umask,omitempty"`     // process umask during the installation
+	Pre       []preOp           `json:"pre"`
+	Kinds     []string          `json:"kinds"` // which pre-state families were drawn (for evidence)
 	// a second installation performed before the one under test (C16 sequences)
 	Before *struct {
 		Agent string `json:"agent"`
@@ -332,6 +333,17 @@ func genScenario(e *env, r *rng, id string, withFaultyPre bool) scenario {
 	}
 	if r.chance(1, 25) {
 		s.Home = ""
+	}
+	if r.chance(1, 4) {
+		// an environment a desktop session or a CI runner really has; README documents the
+		// directories relative to the project and to the home directory only
+		s.Env = map[string]string{}
+		for _, kv := range [][2]string{{"XDG_CONFIG_HOME", "/xdg/config"}, {"XDG_DATA_HOME", "/xdg/data"}, {"XDG_CACHE_HOME", "/xdg/cache"}, {"TMPDIR", "/var/tmp/u"}, {"PWD", "/elsewhere"}, {"XDG_CONFIG_HOME", "relative/cfg"}} {
+			if r.chance(1, 2) {
+				s.Env[kv[0]] = kv[1]
+			}
+		}
+		s.Kinds = append(s.Kinds, "environment_set")
 	}
 	base, ok := e.expectedBase(s.Agent, s.Path, s.User, s.Cwd, s.Home)
 	s.Pre = append(s.Pre, preOp{Op: "mkdir", Path: s.Cwd, Mode: 0o755})
@@ -508,6 +520,7 @@ func buildDisk(s *scenario) *simos.Disk {
 	d.Fired = nil
 	d.Cwd = s.Cwd
 	d.Home = s.Home
+	d.Env = s.Env
 	d.Uid = s.Uid
 	d.Umask = fs.FileMode(s.Umask)
 	d.TempClash = s.TempClash
@@ -934,17 +947,23 @@ func main() {
 		idx := 0
 		for _, a := range e.doc {
 			for _, f := range flags {
-				for _, preKind := range []int{0, 1} {
+				for _, preKind := range []int{0, 1, 2} {
 					r := newRng(*seed, 16, uint64(idx))
 					s := genScenario(e, r, fmt.Sprintf("c16-matrix-%d", idx), false)
 					s.Agent, s.Path, s.User = a.CLI, f.p, f.u
 					if s.Home == "" {
 						s.Home = "/home/u"
 					}
-					if preKind == 0 {
+					if preKind == 0 || preKind == 2 {
 						s.Pre = []preOp{{Op: "mkdir", Path: s.Cwd, Mode: 0o755}, {Op: "mkdir", Path: s.Home, Mode: 0o755}}
 						s.Kinds = []string{"fresh", "matrix"}
 						s.Uid, s.TempClash, s.BaseLink = 0, false, ""
+						s.Env = nil
+						if preKind == 2 {
+							// every cell once more in a session that sets the XDG base directories
+							s.Env = map[string]string{"XDG_CONFIG_HOME": "/xdg/config", "XDG_DATA_HOME": "/xdg/data", "XDG_CACHE_HOME": "/xdg/cache", "TMPDIR": "/var/tmp/u"}
+							s.Kinds = append(s.Kinds, "environment_set")
+						}
 					} else {
 						// regenerate the pre-state for the forced flags
 						r2 := newRng(*seed, 1616, uint64(idx))
